@@ -30,17 +30,30 @@ GOVERNED_FIELDS = {
     "group-size-check": ["GroupSize"],
 }
 # valuations for R-LIT (literal reading): list of alternative valuations; dangerous if ANY admits an accepting walk
+from vf.rlit import NONZERO  # noqa: E402
+
 LIT_VALUATIONS: Dict[str, List[dict]] = {
     "rekey-to": [{"RekeyTo": FRESH}],
-    "can-close-account": [{"CloseRemainderTo": FRESH, "TypeEnum": 1, "OnCompletion": 0, "ApplicationID": 0}],
-    "can-close-asset": [{"AssetCloseTo": FRESH, "TypeEnum": 4, "OnCompletion": 0, "ApplicationID": 0}],
+    # the two fields the detector looks at, nothing else (OnCompletion / ApplicationID are not its fields)
+    "can-close-account": [{"CloseRemainderTo": FRESH, "TypeEnum": 1}],
+    "can-close-asset": [{"AssetCloseTo": FRESH, "TypeEnum": 4}],
     "missing-fee-check": [{"Fee": LIMIT + 1}, {"Fee": MAXU64}],
-    "is-updatable": [{"TypeEnum": 6, "OnCompletion": 4, "ApplicationID": 77}],
-    "is-deletable": [{"TypeEnum": 6, "OnCompletion": 5, "ApplicationID": 77}],
-    "unprotected-updatable": [{"TypeEnum": 6, "OnCompletion": 4, "ApplicationID": 77, "Sender": FRESH}],
-    "unprotected-deletable": [{"TypeEnum": 6, "OnCompletion": 5, "ApplicationID": 77, "Sender": FRESH}],
+    # an application *call* (ApplicationID != 0; only comparisons with 0 are read) with the dangerous OnCompletion
+    "is-updatable": [{"TypeEnum": 6, "OnCompletion": 4, "ApplicationID": NONZERO}],
+    "is-deletable": [{"TypeEnum": 6, "OnCompletion": 5, "ApplicationID": NONZERO}],
+    "unprotected-updatable": [{"TypeEnum": 6, "OnCompletion": 4, "ApplicationID": NONZERO, "Sender": FRESH}],
+    "unprotected-deletable": [{"TypeEnum": 6, "OnCompletion": 5, "ApplicationID": NONZERO, "Sender": FRESH}],
     "group-size-check": [{"GroupSize": 16}],
 }
+
+
+def lit_valuations(det: str, g) -> List[dict]:
+    """valuations whose admission means 'the dangerous value can be approved' (literal reading)"""
+    if det != "missing-fee-check":
+        return LIT_VALUATIONS[det]
+    doms = ravm.Domains(g)
+    fees = sorted({f for f in doms.fee if f > LIMIT} | {LIMIT + 1, MAXU64})
+    return [{"Fee": f} for f in fees]
 
 
 def base_env(detector: str, mode: str) -> Optional[ravm.Env]:
